@@ -258,6 +258,17 @@ def r07_4(ck: Check) -> None:
                 tag = args[0]
                 ty = s.norm.type_of(args[1], s.scope)
                 construct = "%s: DataMessage(%s, %s)" % (short(fi.qualname), show(tag), show(args[1]))
+                if tag[0] != "c":
+                    # a tag taken from a run-time value is as good as a constant where the path pins it to one
+                    pins = [x for c_ in ev.pc for x in conjuncts(c_.term) if x[0] == "cmp" and x[1] == "==" and tag in (x[2], x[3])
+                            and (x[3] if x[2] == tag else x[2])[0] == "c"]
+                    if pins:
+                        tag = pins[0][3] if pins[0][2] == tag else pins[0][2]
+                    elif ty is not None and ty[0] == "C":
+                        ck.violated("R07.4", construct, "the payload is a %s whatever the tag says: under every tag but the one DATATYPES files that "
+                                    "class under, the receiver decodes another class from these bytes (and the message does not survive the round "
+                                    "trip)" % short(ty[1]), ev.loc)
+                        continue
                 if tag[0] == "c" and tag[1] in table and ty is not None and ty[0] == "C" and ty[1] == table[tag[1]]:
                     ck.ok("R07.4", construct, "tag and payload class agree with DATATYPES", ev.loc)
                 elif tag[0] == "c" and tag[1] in table and ty is not None and ty[0] == "C":
